@@ -26,6 +26,31 @@ fn k_xivcrc32_2bytes() {
     kani::cover!(true, "reachable");
 }
 
+//@unit props=C12 label=B tier=thorough fn=crc::XivCrc32::from(&[u8]) bound="the empty input only (through libz-rs-sys::crc32)"
+//@desc the shader-key hash of the empty string is 0 (register form, zero initial value, no final XOR), slice and array entry points
+#[kani::proof]
+#[kani::unwind(10)]
+fn k_xivcrc32_empty() {
+    let e: [u8; 0] = [];
+    let x0 = XivCrc32::from(&e[..]);
+    assert!(x0.crc == 0 && x0.len == 0, "empty input hashes to 0");
+    let x0a = XivCrc32::from(&e);
+    assert!(x0a.crc == 0 && x0a.len == 0, "empty array input hashes to 0");
+    kani::cover!(true, "reachable");
+}
+
+//@unit props=C12 label=B tier=thorough fn=crc::XivCrc32::from(&[u8]) bound="inputs of exactly 1 byte, all contents (through libz-rs-sys::crc32)"
+//@desc the shader-key hash of one byte is the CRC-32 register of that byte with zero initial value and no final XOR
+#[kani::proof]
+#[kani::unwind(10)]
+fn k_xivcrc32_1byte() {
+    let b: [u8; 1] = kani::any();
+    let x = XivCrc32::from(&b[..]);
+    assert!(x.crc == spec_crc32_raw(0, &b), "CRC-32 with init 0 and no final XOR");
+    assert!(x.len == 1, "length recorded");
+    kani::cover!(true, "reachable");
+}
+
 //@unit props=C12 label=P tier=quick fn=crc::XivCrc32::{bitxor,bitxor_assign,new}
 //@desc xor-combination of two hashes xors the registers and keeps the longer length, for all values
 #[kani::proof]
